@@ -4,13 +4,22 @@ from fractions import Fraction
 from .wire import Obj, Num
 
 
+def _num(q):
+    """Numbers of magnitude >= 2^53 are compared as float64 values: the number-valued Schema fields are float64 and
+    encoding/json prints the shortest decimal that reads back as the same float64 (2^64 is printed 18446744073709552000),
+    so the exact decimal text is not the observable there (float formatting is in the trusted base)."""
+    if abs(q) >= 2 ** 53:
+        return ("n", Fraction(repr(float(q))))
+    return ("n", q)
+
+
 def norm(v):
     if isinstance(v, Num):
-        return ("n", Fraction(v.text))
+        return _num(Fraction(v.text))
     if isinstance(v, bool) or v is None:
         return ("c", v)
     if isinstance(v, (int, Fraction, float)):
-        return ("n", Fraction(v))
+        return _num(Fraction(v))
     if isinstance(v, str):
         return ("s", v)
     if isinstance(v, list):
